@@ -164,7 +164,7 @@ def _through(entry, name, fields):
         return False, e
 
 
-HOSTILE_DEFAULTS = [("A\nimport os", []), ("a b", []), ("A;B", []), ("tеst", []), ("_x/", []), ("ok", [("string", "a b")]), ("ok", [("string", "_hidden")]), ("ok", [("string\n", "a")]), ("ok", [("os.system", "a")]),
+HOSTILE_DEFAULTS = [("ｔｅｓｔ/ｒｅｃ", []), ("ﬁle/entry", []), ("ok", [("string", "ｎａｍｅ")]), ("A\nimport os", []), ("a b", []), ("A;B", []), ("tеst", []), ("_x/", []), ("ok", [("string", "a b")]), ("ok", [("string", "_hidden")]), ("ok", [("string\n", "a")]), ("ok", [("os.system", "a")]),
                     ("A\rB", []), ("class", [("string", "x-y")])]
 
 
